@@ -848,6 +848,25 @@ func (e *Engine) Walk(fn *ssa.Function, descendAtoms bool, visit func(in ssa.Ins
 // GatesAt returns, per alternative, the gates that hold whenever block is
 // reached in fn (evaluated in ctx).
 func (e *Engine) GatesAt(fn *ssa.Function, ctx *Ctx, block int) []*Alt {
+	gk := gatesAtKey{fn, ctx, block}
+	if a, ok := e.gatesAt[gk]; ok {
+		return a
+	}
+	alts := e.gatesAtUncached(fn, ctx, block)
+	if e.gatesAt == nil {
+		e.gatesAt = map[gatesAtKey][]*Alt{}
+	}
+	e.gatesAt[gk] = alts
+	return alts
+}
+
+type gatesAtKey struct {
+	fn    *ssa.Function
+	ctx   *Ctx
+	block int
+}
+
+func (e *Engine) gatesAtUncached(fn *ssa.Function, ctx *Ctx, block int) []*Alt {
 	g := e.GraphOf(fn, ctx)
 	var alts []*Alt
 	for _, st := range e.collect(g, block, []state{{nil, ctx}}, 0) {
